@@ -25,6 +25,9 @@ RULE = ("schemas: seeded gen/schema.py descriptions built from SDL and re-built 
         "and enum values with and without reasons, descriptions, custom directives with arguments, mutation/subscription roots) "
         "+ input fields with python_name != name (code-built, and derived by CamelCaseSchemaTransform from snake-case fields; defaults keyed by Python names), custom-scalar defaults that look numeric, every directive location the parser accepts + the same descriptions built from instances of SUBCLASSES of every library type class (incl. wrappers, RegexType, UUID) and compared with the plain-class twin + corpus; executed with BlockingExecutor and Executor on BlockingRuntime (all), AsyncIORuntime (private loop) and "
         "ThreadPoolRuntime(2) (subset); includeDeprecated true/false/omitted; introspection enabled/disabled; __type(name:) of names in / not in the schema; "
+        "DETERMINISTIC class eq-colliding: defaults / enum internal values 1, True, 1.0, 0, False, 0.0 (== and hash collide, types differ) on ONE JSON-like "
+        "custom scalar and ONE enum, as arguments / input fields / directive arguments of two schemas sharing the type objects in opposite orders, "
+        "introspected one after the other in one process, type-strict round-trip; "
         "HISTORIES introspect -> in-place change of the live schema (hide implementer, drop union member, replace types, rename enum values, "
         "set / delete defaults) -> introspect again on Executor and BlockingExecutor, + ctx.later repeats on the schema objects kept alive. "
         "non-trivial = distinct (schema, aspect) with at least one user type beyond Query")
